@@ -514,7 +514,7 @@ class Command:
                     raise ExtensionNotLoaded(ext)
                 condition = "extra_arg" in curarg and (
                     "valid_for" not in curarg["extra_arg"]
-                    or avalue in curarg["extra_arg"]["valid_for"]
+                    or avalue.lower() in curarg["extra_arg"]["valid_for"]
                 )
                 if condition:
                     self.curarg = curarg
